@@ -1,4 +1,5 @@
 import OdfModel.Registry
+import OdfModel.Gen.Ctors
 
 /-!
 # C12 — every element class round-trips through XML and comes back as the same class
@@ -6,8 +7,13 @@ import OdfModel.Registry
 Model: `OdfModel/Registry.lean` — the dispatch of `Element.from_tag` over the table DUMPED from
 the live registry at every run (`Gen/Registry.lean`: lxml tag, class, the tag the class declares
 as its own), and the generic attribute getter / setter behind every `PropDef` property.
-The constructors themselves (89 classes) are not modelled: their agreement with the properties is
-decided by the harness (type-directed arguments, re-parse), as DESIGN.md says (PARTIAL).
+The constructors (89 classes): `Gen/Ctors.lean` is regenerated at every run from the AST of every
+constructor — for each parameter that has a generic attribute property of the same name, whether the
+constructor stores the parameter in that property (directly, through a method of the class, or by
+forwarding it to a base constructor that does); `ctor_params_stored` is re-decided over the whole table.
+That the stored value is then what the property reports is `propdef_roundtrip`; what a constructor does
+with the other parameters (children, text, computed attributes) is decided by the harness (type-directed
+arguments, re-parse), as DESIGN.md says (PARTIAL).
 -/
 namespace Odf.C12
 open Odf.Registry
@@ -58,5 +64,13 @@ theorem unknown_tag_is_element : classOf 0 = 0 ∧ className 0 = "Element" := by
 /-- the Element subclasses the package exports without registering them are exactly the base
     classes and TabStopStyle (dispatched to Style through its tag list) -/
 theorem unregistered_are_known : Odf.Gen.unregistered = ["Element", "ElementTyped", "TabStopStyle"] := by decide +kernel
+
+/-- **no constructor argument is dropped or stored under another name**: every constructor parameter
+    that has a generic attribute property of the same name is stored in that property (table regenerated
+    from the constructors' AST at every run; found BackgroundImage(repeat / opacity / filter), fix C12-F7) -/
+theorem ctor_params_stored : ∀ r ∈ Odf.Gen.ctorParams, r.2.2 = true := by decide +kernel
+
+/-- the table is not empty: the statement above speaks of more than a hundred (class, parameter) pairs -/
+theorem ctor_table_covers : 100 ≤ Odf.Gen.ctorParams.length := by decide +kernel
 
 end Odf.C12
